@@ -734,13 +734,21 @@ def run_case(rng, tier, res):
     if f_hz <= 33333 and rng.random() < 0.5:
         budget = rng.randint(22, 30) * T["LFPS"] // 10        # room for a 360 ms time-out
     dut = LTSSMController(ss_clock_frequency=float(f_hz), loosen_requirements=loosened)
-    b = Bench(dut, domain="ss", freq=60e6, max_cycles=budget + 10)
+    assert all(len(getattr(dut, n)) == 1 for n in OUTPUTS)
+    from amaranth import Cat, Elaboratable, Module, Signal
+    vec = Signal(len(OUTPUTS))    # all outputs (1 bit each) concatenated: sampling one Signal per cycle is 2x faster than 15
+
+    class Wrapper(Elaboratable):
+        def elaborate(self, platform):
+            m = Module()
+            m.submodules.ltssm = dut
+            m.d.comb += vec.eq(Cat(*(getattr(dut, n) for n in OUTPUTS)))
+            return m
+
+    b = Bench(Wrapper(), domain="ss", freq=60e6, max_cycles=budget + 10)
     ins = PULSE_INPUTS + LEVEL_INPUTS
     in_sigs = [getattr(dut, n) for n in ins]
     out_sigs = [getattr(dut, n) for n in OUTPUTS]
-    from amaranth import Cat
-    vec = Cat(*out_sigs)          # one sampled expression instead of 15 (all outputs are 1 bit wide): 2x faster
-    assert len(vec) == len(OUTPUTS)
     b.watch(vec)
     log = []
     res.desc = {"f_hz": f_hz, "loosen_requirements": loosened, "profile": profile, "budget": budget, "phases": log}
